@@ -13,7 +13,7 @@ CFG = dict(
                'Known classes (findings): 1 a comparison/negated atom before the atom that binds its variables (clause skipped, Derived-source fallback); '
                '3 recursion over cyclic data (a cycle-cut failure is cached as a Derived-source fallback leaf).',
     technique='Coq proof (existence of complete derivations within the reference depth) + per-run oracle on the real `.why` / build_proof_tree output',
-    bin='c22', n_quick=220, n_thorough=4000,
+    bin='c22', n_quick=220, n_thorough=1100,
     corr_name='Model/ProvChain.v (build_proof_tree model) vs build_proof_tree on the library paths; harness derived data vs Coq reference model',
     rule='same generator and corpus as C21 (three paths; depth limits {1,2,3,4,6,50} on the library paths, 50 through the Handler); the oracle is evaluated on every '
          'answer whose reference depth + 1 <= limit; non-trivial = some returned tree has depth >= 2',
